@@ -27,11 +27,15 @@ TRUSTED = [
     "and HedTag.value_as_default_unit are trusted; since fix C10-F1 sort_values(kind='stable') is modelled as the "
     "stable insertion sort (pandas' stable sort is trusted to be stable; every recorded sort result is checked to "
     "be order-preserving on each run); VERIF_C10_FIXED=0 selects the unrepaired model whose tie order is an input",
+    "SpreadsheetValidator.validate's 'self._onset_validator = OnsetValidator()' is modelled by sv_validate / "
+    "validate_seq (a fresh validator per call); tied by sequences of files validated on ONE SpreadsheetValidator "
+    "object, each file compared with the model and the statement run from the empty state",
     "str.casefold is modelled on ASCII only (A-Z -> a-z); the generators use ASCII definition names",
 ]
 ASSUMPTIONS = [
     "onset and Delay values are exact dyadic numbers (multiples of 1/8 s); the 1e-9 tolerance of "
-    "_indexed_dict_from_onsets, float parsing and n/a (NaN) onsets are not modelled",
+    "_indexed_dict_from_onsets, float parsing, n/a (NaN) onsets and Delay values without a conversion to seconds "
+    "(such groups stay in their row since the C07/C11 fixes) are not modelled",
     "structural group errors (ONSET_NO_DEF_TAG_FOUND, ONSET_TOO_MANY_DEFS, ONSET_DEF_UNMATCHED ...) come from "
     "DefValidator.validate_onset_offset and are outside C10; only OFFSET_BEFORE_ONSET, INSET_BEFORE_ONSET and "
     "ONSET_SAME_DEFS_ONE_ROW are compared",
@@ -253,8 +257,42 @@ def impl_file(case):
             shutil.rmtree(scratch, ignore_errors=True)
 
 
+def impl_seq(case):
+    """Several event files validated one after the other with ONE SpreadsheetValidator object."""
+    import pandas as pd
+    from hed.models import TabularInput
+    from hed.validator.spreadsheet_validator import SpreadsheetValidator
+    st = _init()
+    rec = st["rec"]
+    out = []
+    try:
+        sv = SpreadsheetValidator(st["schema"])
+        for rows in case["files"]:
+            rec["perms"].clear()
+            rec["ovs"].clear()
+            rec["invalid"] = None
+            data = [[onset_text(r["on"]), row_text(r)] for r in rows]
+            tab = TabularInput(pd.DataFrame(data, columns=["onset", "HED"]).astype(str))
+            # what BaseInput.validate does, but on the shared validator object
+            issues = sv.validate(tab, tab._mapper.get_def_dict(st["schema"], st["dd"]), "f")
+            iss = []
+            for i in issues:
+                if i.get("_kind") in SUBKINDS:
+                    k, pos, name = _canon_issue(i, i["ec_HedString"])
+                    iss.append([k, int(i["ec_row"]) - 2, pos, name])
+            ov = sv._onset_validator
+            out.append({"issues": sorted(iss), "state": list(ov._onsets.keys()) if ov else None,
+                        "perms": [[p, s2] for p, s2 in rec["perms"]], "invalid": rec["invalid"],
+                        "fresh_validators": len(rec["ovs"])})
+    except Exception as e:  # noqa
+        return {"exn": exn_name(e), "msg": str(e)[:200]}
+    return {"files": out}
+
+
 def impl_one(case):
-    return impl_history(case["h"]) if case["t"] == "H" else impl_file(case)
+    if case["t"] == "H":
+        return impl_history(case["h"])
+    return impl_seq(case) if case["t"] == "S" else impl_file(case)
 
 
 # ---------------------------------------------------------------- reference of the statement (python, independent)
@@ -360,7 +398,18 @@ def perm_sx(p):
     return "N" if p is None else "(" + " ".join(str(i) for i in p) + ")"
 
 
+def rows_sx(rows):
+    out = []
+    for r in rows:
+        gs = " ".join("(%s %s)" % ("N" if g[0] is None else g[0], "N" if g[1] is None else marker_sx(g[1]))
+                      for g in r["g"])
+        out.append("(%d %d (%s))" % (r["on"], 1 if r.get("bad") else 0, gs))
+    return " ".join(out)
+
+
 def model_line(case, perms=(None, None)):
+    if case["t"] == "S":
+        return "(S %d %s)" % (FIXED, " ".join("(" + rows_sx(f) + ")" for f in case["files"]))
     if case["t"] == "H":
         return "(H " + " ".join("(" + " ".join(marker_sx(m) for m in tp if m is not None) + ")" for tp in case["h"]) + ")"
     rows = []
@@ -380,6 +429,12 @@ def model_history(m):
         return {"exn": str(m)}
     return {"trace": [[[sx_name(k) for k in st], [[i[0], int(i[1]), sx_name(i[2])] for i in iss]]
                       for st, iss in m[1:]]}
+
+
+def model_seq(m):
+    if m[0] != "ok":
+        return {"exn": str(m)}
+    return {"files": [model_file(x) for x in m[1:]]}
 
 
 def model_file(m):
@@ -472,6 +527,45 @@ def exhaustive_files():
     return out
 
 
+def seq_cases(rng, n):
+    """Several files for ONE SpreadsheetValidator object: a file that ends with scopes open, then a file that
+    starts with Offset/Inset of those names (case / value variants), optionally a third one."""
+    fams = [["A", "a"], ["B/1", "b/1", "B/2"], ["C", "c"]]
+    out = []
+    # every (name left open) x (Offset|Inset of a spelling of it or of another name), as one-row files
+    for fam in fams:
+        for x in fam:
+            for y in fam + [fams[(fams.index(fam) + 1) % 3][0]]:
+                for k in (1, 2):
+                    out.append({"t": "S", "files": [[{"on": 8, "g": [[None, [0, [x], 0], 0]]}],
+                                                    [{"on": 4, "g": [[None, [k, [y], 0], 0]]}]]})
+    out.append({"t": "S", "files": [[{"on": 8, "g": [[None, [0, ["A"], 0], 0]]}],
+                                    [{"on": 8, "g": [[None, [0, ["B/1"], 0], 0]]}],
+                                    [{"on": 8, "g": [[None, [1, ["a"], 0], 0], [None, [2, ["b/1"], 0], 0]]}]]})
+    for _ in range(n):
+        names = rng.sample(NAMES_ALL, rng.randint(1, 4))
+        files = []
+        for fno in range(rng.choice([2, 2, 3])):
+            t = rng.choice([0, 4, 8])
+            rows = []
+            for rno in range(rng.randint(1, 4)):
+                if rows and rng.random() < 0.6:
+                    t += rng.choice([2, 4, 8])
+                gs = []
+                for _ in range(rng.choice([1, 1, 2, 3])):
+                    m = rand_marker(rng, names)
+                    if fno == 0 and rng.random() < 0.6:
+                        m[0] = 0                     # first file: mostly Onsets, so scopes stay open
+                    if fno > 0 and rno == 0 and rng.random() < 0.7:
+                        m[0] = rng.choice([1, 2])    # later files start with Offset / Inset
+                    d = rng.choice(DELAYS) if rng.random() < 0.15 else None
+                    gs.append([d, m, rng.randrange(2)])
+                rows.append({"on": t, "g": gs, "fill": int(rng.random() < 0.2)})
+            files.append(rows)
+        out.append({"t": "S", "files": files})
+    return out
+
+
 CORPUS = [
     # Offset after re-Onset, Inset after Offset, same name with another value, case variants
     {"t": "H", "h": [[[0, ["A"], 0]], [[0, ["a"], 0]], [[1, ["A"], 0]], [[2, ["a"], 0]], [[1, ["A"], 0]]]},
@@ -525,6 +619,21 @@ def oracle(case, r, res):
             clause = classify(got[k][1], exp[k][1]) if got[k][1] != exp[k][1] else "open-scope-set"
             res.report(clause, case, f"time point {k}: impl={got[k]} statement={exp[k]}")
             return True
+        return False
+    if case["t"] == "S":
+        # every file is a history of its own: it starts with no scope open, whatever the same SpreadsheetValidator
+        # object validated before (sequences are generated time-ordered, without failed rows)
+        for k, (rows, fr) in enumerate(zip(case["files"], r["files"])):
+            if FIXED and any(not st for _, st in fr["perms"]):
+                res.report("effective-time-order", case, f"file {k}: tie_orders={fr['perms']}")
+                return True
+            exp_iss, exp_open = ref_file(rows)
+            if fr["issues"] != exp_iss or sorted(fr["state"] or []) != exp_open:
+                carried = sorted(r["files"][k - 1]["state"] or []) if k else []
+                res.report("each-file-starts-with-no-open-scope" if k else classify(fr["issues"], exp_iss), case,
+                           f"file {k} (after a file that left {carried} open): impl={fr['issues']} "
+                           f"open={fr['state']} statement={exp_iss} open={exp_open}")
+                return True
         return False
     # files: the statement speaks about time-ordered files; a time point that starts with a row that failed the
     # basic checks is skipped ("Skip rows that had issues", _run_onset_checks) -- the reference does the same
@@ -608,6 +717,8 @@ def in_exh_domain(c, specs):
 
 
 def nontrivial(c):
+    if c["t"] == "S":
+        return len(c["files"]) >= 2
     if c["t"] == "H":
         ms = [m for tp in c["h"] for m in tp if m is not None]
     else:
@@ -652,6 +763,11 @@ def work(task):
             if c["t"] == "H":
                 mm = model_history(m)
                 ok = mm.get("trace") == r["trace"]
+            elif c["t"] == "S":
+                mm = model_seq(m)
+                ok = ("files" in mm and len(mm["files"]) == len(r["files"]) and
+                      all(a.get("issues") == b["issues"] and a.get("state") == b["state"] and b["fresh_validators"] == 1
+                          for a, b in zip(mm["files"], r["files"])))
             else:
                 mm = model_file(m)
                 ok = mm.get("issues") == r["issues"] and mm.get("state") == r["state"]
@@ -681,9 +797,16 @@ def work(task):
                     corr.append((cases[i], f"with observed tie order: impl={impl[i]} model={mm}"))
     h = Counter()
     nfile = sum(1 for c in cases if c["t"] == "F")
-    h["direct_histories"] = len(cases) - nfile
+    nseq = sum(1 for c in cases if c["t"] == "S")
+    h["direct_histories"] = len(cases) - nfile - nseq
     h["event_files"] = nfile
+    h["multi_file_sequences"] = nseq
     for c, r in zip(cases, impl):
+        if c["t"] == "S":
+            fl = r.get("files", [])
+            h["sequences_with_scope_left_open_then_used"] += any(
+                fl[k - 1]["state"] and fl[k]["issues"] for k in range(1, len(fl)))
+            continue
         if c["t"] == "F":
             h["files_with_delay"] += any(g[0] is not None for x in c["rows"] for g in x["g"])
             h["files_with_equal_onsets"] += len({x["on"] for x in c["rows"]}) < len(c["rows"])
@@ -725,9 +848,10 @@ def run(tier, seed, res, model_ok=True, proof_ok=True):
     rand_h = gen_random_histories(rng, nh, 0.0) + gen_random_histories(rng, nh // 3, 0.25)
     files = (exhaustive_files() + gen_random_files(rng, nf, 0.0) + gen_random_files(rng, nf // 4, 0.3)
              + gen_random_files(rng, nf // 5, 0.1, unsorted=True))
+    seqs = seq_cases(rng, (150 if small else 500 if quick else 6000) * wide)
     exe = C.build_driver("c10") if model_ok else None
     tasks = [{"kind": "cases", "cases": corpus}]
-    listed = rand_h + files
+    listed = seqs + rand_h + files
     tasks += [{"kind": "cases", "cases": listed[i:i + 250]} for i in range(0, len(listed), 250)]
     tasks += exh_tasks(specs)
     for t in tasks:
@@ -760,7 +884,10 @@ def run(tier, seed, res, model_ok=True, proof_ok=True):
         "distinct_nontrivial": nontriv + len(hashes),
         "rule": "corpus + " + exh_rule + f" (direct OnsetValidator path on real HedString objects) + {len(rand_h)} "
                 f"random histories (Def/Def-expand, tag order, inner groups, 25% stream with Def-less / two-Def / "
-                f"plain groups) + {len(files)} event files through TabularInput.validate (every 1-2 marker layout, "
+                f"plain groups) + {len(seqs)} sequences of 2-3 event files validated with ONE SpreadsheetValidator "
+                f"object (a file leaving scopes open, then files starting with Offset/Inset of those names; each file "
+                f"compared with the model/statement run from the empty state) "
+                f"+ {len(files)} event files through TabularInput.validate (every 1-2 marker layout, "
                 "random rows with equal onsets and Delay groups, a malformed stream with failed rows, an unsorted "
                 "stream); non-trivial = at least two markers, not all Onset; distinct = exhaustive cases counted "
                 "once by construction + distinct hashes of the generated cases outside the exhaustive domain",
@@ -784,6 +911,9 @@ def replay(payload):
     r = impl_one(case)
     if case["t"] == "H":
         print("time points:", [tp_text(tp) for tp in case["h"]])
+    elif case["t"] == "S":
+        for k, f in enumerate(case["files"]):
+            print(f"file {k} (same SpreadsheetValidator object) rows:", [(onset_text(x["on"]), row_text(x)) for x in f])
     else:
         print("rows (onset, HED):", [(onset_text(x["on"]), row_text(x)) for x in case["rows"]])
     print("impl:", r)
@@ -803,9 +933,11 @@ def replay(payload):
         if not FIXED and case["t"] == "F" and "exn" not in r and not is_sorted_file(case) and len(r["perms"]) == 2:
             perms = (r["perms"][0][0], r["perms"][1][0])
         m = C.run_driver(exe, [model_line(case, perms)])[0]
-        mm = model_history(m) if case["t"] == "H" else model_file(m)
+        mm = model_history(m) if case["t"] == "H" else (model_seq(m) if case["t"] == "S" else model_file(m))
         print("model:", mm)
         same = (mm.get("trace") == r.get("trace")) if case["t"] == "H" else \
+            ([(a.get("issues"), a.get("state")) for a in mm.get("files", [])] ==
+             [(b["issues"], b["state"]) for b in r.get("files", [])]) if case["t"] == "S" else \
             (mm.get("issues") == r.get("issues") and mm.get("state") == r.get("state"))
         if not same and not FIXED and case["t"] == "F" and is_sorted_file(case) and any(not st for _, st in r.get("perms", [])):
             m2 = model_file(C.run_driver(exe, [model_line(case, (None, r["perms"][0][0]))])[0])
